@@ -374,13 +374,20 @@ func coreHistory(c *Ctx, d *coreDrv) {
 			if len(nodes) > 0 && len(apps) > 0 {
 				// (not a placeholder whose release the core has announced and the shim has not confirmed yet: the shim is
 				//  deleting that pod; a resize racing with the swap is outside the legal stream, see DESIGN 9.2)
+				// (nor an ask of an application that has a swap waiting for the shim's confirmation: the real half of that swap
+				//  is an ask the core has already placed; the shim binding or resizing it itself at that moment is the
+				//  malformed stream's business: C13 class G-resizeUnbound)
 				releasing := map[string]bool{}
+				swapping := map[string]bool{}
 				for _, pc := range s.pendConf {
 					releasing[pc["key"].(string)] = true
+					if pc["type"] == "PLACEHOLDER_REPLACED" {
+						swapping[pc["app"].(string)] = true
+					}
 				}
 				keys := []string{}
-				for k := range s.asks {
-					if !releasing[k] {
+				for k, a := range s.asks {
+					if !releasing[k] && !swapping[a.app] {
 						keys = append(keys, k)
 					}
 				}
